@@ -144,7 +144,7 @@ def run(res, tier, seed, shard, nshards):
         for b in range(BATCHES[tier]):
             rng = rng_for("C08", tier, seed, shard, b)
             storage, auto = cfgs[b % 4]
-            n = rng.randint(6, 9)
+            n = rng.randint(6, 9) if b % 7 != 3 else rng.choice([70, 150])  # now and then one big batch
             instants = gen_instants(rng, zone, n)
             cases = [present(rng, u, zone) for u in instants]
             for u, c in zip(instants, cases):
@@ -166,11 +166,18 @@ def run(res, tier, seed, shard, nshards):
             try:
                 with quiet_stdout():
                     pts = [Point(time=c.dt, tags={"i": str(i)}) for i, c in enumerate(cases)]
-                    if b % 3 == 0:
+                    if b % 3 == 0 or n > 9:
                         db.insert_multiple(pts)
+                        res.count("inserted_via.insert_multiple")
+                    elif b % 5 == 4:
+                        h = db.measurement("_default")
+                        for p in pts:
+                            h.insert(p)
+                        res.count("inserted_via.handle")
                     else:
                         for p in pts:
                             db.insert(p)
+                        res.count("inserted_via.insert")
                     # the caller's point objects are normalised too (documented in time.rst)
                     if check_returned(pts, [c.readings for c in cases], "point.time after insert", ctx) is None:
                         continue
@@ -201,6 +208,8 @@ def run(res, tier, seed, shard, nshards):
                     # comparisons of instants, comparison value in any zone
                     ok = True
                     probes = sorted({u + d for u in stored for d in (0, 1, -1)})
+                    if len(probes) > 40:
+                        probes = sorted(rng.sample(probes, 40))
                     for pu in probes:
                         if not (Y1700 - 2 <= pu <= Y2240 + 2):
                             continue
@@ -239,17 +248,23 @@ def run(res, tier, seed, shard, nshards):
                     if stored2 is None:
                         continue
                     delta = rng.choice([1, -1, 3_600_000_000, -86_400_000_000, 1_800_000_000])
-                    tzs = rng.choice([None, timezone(timedelta(minutes=345)), "iana"])
+                    tzs = rng.choice([None, timezone(timedelta(minutes=345)), "iana", "naive-local"])
                     res.count("update_time_callable")
 
                     def shift(t, delta=delta, tzs=tzs):
                         t2 = t + timedelta(microseconds=delta)
                         if tzs == "iana":
                             return t2.astimezone(zinfo("America/Los_Angeles"))
+                        if tzs == "naive-local":
+                            return t2.astimezone(zinfo(zone)).replace(tzinfo=None)
                         return t2.astimezone(tzs) if tzs else t2
 
                     db.update(TagQuery().i.exists(), time=shift)
                     exp = [{u + delta} for u in stored2]
+                    if tzs == "naive-local":
+                        # a naive value means local time: inside a DST fold either reading is admissible
+                        exp = [naive_readings(from_us(u + delta).astimezone(zinfo(zone)).replace(tzinfo=None), zone) for u in stored2]
+                        res.count("update_time_callable_returning_naive")
                     stored3 = check_returned(db.all(sorted=False), exp, "all() after update(time=callable)", dict(ctx, delta_us=delta))
                     if stored3 is None:
                         continue
